@@ -427,6 +427,11 @@ func eval(c fcase) ev.Result {
 			b, _ := os.ReadFile(filepath.Join(dest, files[0]))
 			identical = bytes.Equal(b, data)
 		}
+		// an announced length or digest that does not match what is received must always be reported
+		// as a failure with nothing left at the destination, even when the bytes themselves are right
+		if meta := c.Fault == "length+" || c.Fault == "length-" || c.Fault == "digest"; meta && (len(files) != 0 || runErr == nil) {
+			return ev.Failf("mismatch-accepted:"+c.Fault, "%s: the announced %s did not match the transfer, yet files=%v and TO2 error=%v", tag, map[bool]string{true: "digest", false: "length"}[c.Fault == "digest"], files, runErr)
+		}
 		if len(files) != 0 && !identical {
 			b, _ := os.ReadFile(filepath.Join(dest, files[0]))
 			return ev.Failf("file-despite-"+c.Fault, "%s: the transfer was corrupted in transit, yet %v exists at the destination (%d bytes, source %d bytes, TO2 error: %v)", tag, files, len(b), len(data), runErr)
@@ -782,7 +787,7 @@ func TestC17(t *testing.T) {
 		}
 	}, eval)
 
-	r.SetRule("transfers", "generated transfers through a complete TO2 (real device role and owner responders, real fsim modules on both sides, HTTP transport, in-memory state): module ∈ {download, upload, wget (in-process HTTP round tripper)} × file size 1..200000 (dense around multiples of the effective chunk ±12) × random content × download chunk size {0, -1, 1..65535} × device MTU 64..65535 × owner MTU 256..65535 × name length × fault ∈ {none, flip a data bit, shorten a chunk, alter the digest, announced length up/down, drop / duplicate / reorder a data message; wget: served bytes flipped / shorter / longer / empty, read error, HTTP status, digest} injected inside the tunnel by a proxy around the real module. Oracle: fault applied ⇒ TO2 does not succeed and the destination directory stays empty; no fault ⇒ at most one file, it has the announced name and exactly the source bytes, and where the device MTU leaves room for the owner's announcement (download/wget ≥ 256+2·namelen, upload ≥ 128+2·namelen) the transfer succeeds. Non-trivial: multi-message files or an applied fault.")
+	r.SetRule("transfers", "generated transfers through a complete TO2 (real device role and owner responders, real fsim modules on both sides, HTTP transport, in-memory state): module ∈ {download, upload, wget (in-process HTTP round tripper)} × file size 1..200000 (dense around multiples of the effective chunk ±12) × random content × download chunk size {0, -1, 1..65535} × device MTU 64..65535 × owner MTU 256..65535 × name length × fault ∈ {none, flip a data bit, shorten a chunk, alter the digest, announced length up/down, drop / duplicate / reorder a data message; wget: served bytes flipped / shorter / longer / empty, read error, HTTP status, digest} injected inside the tunnel by a proxy around the real module. Oracle: fault applied ⇒ TO2 does not succeed and the destination directory stays empty (an announced length or digest that does not match: always; a data fault that lets the complete identical file through first may leave that file); no fault ⇒ at most one file, it has the announced name and exactly the source bytes, and where the device MTU leaves room for the owner's announcement (download/wget ≥ 256+2·namelen, upload ≥ 128+2·namelen) the transfer succeeds. Non-trivial: multi-message files or an applied fault.")
 	ev.Rapid(r, "transfers", ev.N{Quick: 2500, Thorough: 120000}, genCase, eval)
 	ev.CheckWitness(r, "transfers", eval)
 
